@@ -779,6 +779,9 @@ func writeEvidence(out, prop, tier string, reports []*HarnessReport, wall, loadS
 	assumes := map[string]bool{}
 	stubs := map[string]bool{}
 	undis := []string{}
+	if knownLines == nil {
+		knownLines = []string{}
+	}
 	for _, rp := range reports {
 		states += rp.Paths
 		trans += int(rp.Steps)
@@ -833,7 +836,7 @@ func writeEvidence(out, prop, tier string, reports []*HarnessReport, wall, loadS
 			"known_findings_matched":        knownLines,
 			"explanation":                   "states = feasible symbolic paths explored; transitions = go/ssa instructions executed symbolically; each obligation is an SMT query (pc ∧ ¬property) answered unsat for every input within the bounds stated per harness",
 		},
-		"assumptions": append(keys(assumes), prefixAll("stub: ", keys(stubs))...),
+		"assumptions": append(append([]string{"go/ssa (x/tools v0.29.0) rendering of the source and the executor's instruction semantics are trusted", "build tags purego: generic Go code paths"}, keys(assumes)...), prefixAll("stub: ", keys(stubs))...),
 	}
 	data, _ := json.MarshalIndent(ev, "", " ")
 	os.MkdirAll(filepath.Dir(out), 0o755)
